@@ -166,7 +166,7 @@ func TileGeometry(s *core.Source, kind int) orb.Geometry {
 	}
 }
 
-var keyPool = []string{"name", "kind", "a", "b", "class", "height", "ref", ""}
+var keyPool = []string{"name", "kind", "a", "b", "class", "height", "ref", "", "Name", "A", "name ", "ab"}
 var strPool = []string{"", "x", "1", "true", "road", "é", "a\x00b", "long-value-long-value"}
 
 // PropValue draws one property value over {string, bool, every Go integer and float kind, nil, slices/maps}.
@@ -199,6 +199,9 @@ func PropValue(s *core.Source) interface{} {
 	case 11:
 		return s.Bits("u64")
 	case 12:
+		if s.Bool("inexact32") {
+			return []float32{0.1, 1.0 / 3, 12.3, 1e-10, 3.4e38, 16777217}[s.Intn(6, "f32")]
+		}
 		return float32(small()) / 4
 	case 13:
 		switch s.Intn(3, "fkind") {
@@ -271,6 +274,14 @@ func Layers(s *core.Source, o LayerOpts) mvt.Layers {
 			f.Properties = Props(s)
 			l.Features = append(l.Features, f)
 		})
+		if len(l.Features) > 0 && s.Chance(1, 120, "repetitive") {
+			// real tiles are repetitive: the same feature many times over (compresses far better than 40:1)
+			n := []int{100, 1200}[s.Intn(2, "reps")]
+			f := l.Features[len(l.Features)-1]
+			for i := 0; i < n; i++ {
+				l.Features = append(l.Features, f)
+			}
+		}
 		ls = append(ls, l)
 	})
 	return ls
